@@ -466,11 +466,9 @@ impl ZonedDateTime {
             .calendar
             .date_from_partial(&partial.date, overflow)?
             .iso;
-        let time = if !partial.time.is_empty() {
-            Some(IsoTime::default().with(partial.time, overflow)?)
-        } else {
-            None
-        };
+        // NOTE: A field record always yields a time (missing fields are 0); only strings
+        // without a time denote the start of the day.
+        let time = Some(IsoTime::default().with(partial.time, overflow)?);
 
         // Handle time zones
         let offset_nanos = partial
